@@ -1019,7 +1019,10 @@ class Interp(object):
         return PyList(self._elts(e.elts, env, module, func))
 
     def ex_Set(self, e, env, module, func):
-        return set(self._elts(e.elts, env, module, func))
+        elts = self._elts(e.elts, env, module, func)
+        if any(isinstance(x, Sym) and ir._num(x.t) is None for x in elts):
+            return self.lib.SymSet.from_elems(elts)        # a set display with symbolic integers (vine edge variables)
+        return set(elts)
 
     def _elts(self, elts, env, module, func):
         out = []
